@@ -12,8 +12,9 @@ cp _seed/demo.py /verif/seeded/$NAME/demo.py
 cp _seed/notes.md /verif/seeded/$NAME/notes.md 2>/dev/null || true
 set +e
 /venv/bin/python _seed/demo.py > /tmp/seedlog_$NAME.with 2>&1; RC_WITH=$?
-git stash -q -- qbee qvm
+# (no git stash: refs/stash is shared by all worktrees of /repo)
+git apply -R /verif/seeded/$NAME/patch.diff
 /venv/bin/python _seed/demo.py > /tmp/seedlog_$NAME.without 2>&1; RC_WITHOUT=$?
-git stash pop -q
+git apply /verif/seeded/$NAME/patch.diff
 /venv/bin/python -m pytest -q -p no:cacheprovider --timeout=900 -q > /tmp/seedlog_$NAME.tests 2>&1; RC_TESTS=$?
 echo "$NAME demo_with=$RC_WITH demo_without=$RC_WITHOUT tests_rc=$RC_TESTS $(tail -1 /tmp/seedlog_$NAME.tests)"
